@@ -26,6 +26,7 @@ type popCfg struct {
 	// i.e. generate messages that are well-formed at their own protocol version.
 	respectGating bool
 	ver           *kmip.ProtocolVersion
+	extTags       bool // opaque generic trees use extension-range tags only
 }
 
 func (p *popCfg) gatedOut(t reflect.Type, fieldName string) bool {
@@ -224,7 +225,7 @@ func (p *popCfg) populate(v reflect.Value) {
 		v.Set(reflect.ValueOf(*tree.GenBig(r, 300)))
 		return
 	case tValue:
-		v.Set(reflect.ValueOf(toValue(tree.Gen(r, tree.GenOpts{MaxDepth: 2, MaxChildren: 3, MaxData: 12, MaxBigBits: 100, TextMode: p.textMode}, 1))))
+		v.Set(reflect.ValueOf(toValue(tree.Gen(r, tree.GenOpts{MaxDepth: 2, MaxChildren: 3, MaxData: 12, MaxBigBits: 100, TextMode: p.textMode, ExtTags: p.extTags}, 1))))
 		return
 	case tTStruct:
 		v.Set(reflect.ValueOf(ttlv.Struct(p.genTTLVStruct())))
@@ -373,7 +374,7 @@ func (p *popCfg) genTTLVStruct() []ttlv.Value {
 	n := p.r.Intn(4)
 	var out []ttlv.Value
 	for i := 0; i < n; i++ {
-		out = append(out, toValue(tree.Gen(p.r, tree.GenOpts{MaxDepth: 2, MaxChildren: 3, MaxData: 12, MaxBigBits: 100, TextMode: p.textMode}, 1)))
+		out = append(out, toValue(tree.Gen(p.r, tree.GenOpts{MaxDepth: 2, MaxChildren: 3, MaxData: 12, MaxBigBits: 100, TextMode: p.textMode, ExtTags: p.extTags}, 1)))
 	}
 	return out
 }
@@ -457,12 +458,12 @@ func (p *popCfg) popAttribute(x *kmip.Attribute) {
 	switch {
 	case r.Chance(1, 8): // custom attribute: any TTLV value
 		x.AttributeName = kmip.AttributeName(rng.Pick(r, []string{"x-", "y-"}) + p.genString())
-		av := toValue(tree.Gen(r, tree.GenOpts{MaxDepth: 2, MaxChildren: 3, MaxData: 12, MaxBigBits: 100, TextMode: p.textMode}, 1))
+		av := toValue(tree.Gen(r, tree.GenOpts{MaxDepth: 2, MaxChildren: 3, MaxData: 12, MaxBigBits: 100, TextMode: p.textMode, ExtTags: p.extTags}, 1))
 		av.Tag = kmip.TagAttributeValue // a generic value travels under the Attribute Value tag
 		x.AttributeValue = av
 	case r.Chance(1, 12): // name unknown to the library
 		x.AttributeName = kmip.AttributeName("Vendor " + p.genString())
-		av := toValue(tree.Gen(r, tree.GenOpts{MaxDepth: 2, MaxChildren: 3, MaxData: 12, MaxBigBits: 100, TextMode: p.textMode}, 1))
+		av := toValue(tree.Gen(r, tree.GenOpts{MaxDepth: 2, MaxChildren: 3, MaxData: 12, MaxBigBits: 100, TextMode: p.textMode, ExtTags: p.extTags}, 1))
 		av.Tag = kmip.TagAttributeValue
 		x.AttributeValue = av
 	default:
